@@ -299,7 +299,7 @@ structure SproutEffect (t t' : T) (flat : List (Id × Ind)) : Prop where
 
 theorem createDeme_lvlId {t t' : T} {p : Deme} {seed : Option Ind} {env : NewEnv}
     (h : createDeme t (some p) seed env = .ok t') (hp : p.level = p.id.length) (hl : LvlId t) : LvlId t' := by
-  obtain ⟨old, d, hd, hf, hlev, hid, _⟩ := (createDeme_effect h).demes
+  obtain ⟨old, d, hd, hf, _, _, hlev, hid, _⟩ := (createDeme_effect h).demes
   intro x hx
   rw [hd] at hx
   rcases List.mem_append.mp hx with hx | hx
@@ -336,7 +336,7 @@ theorem doSprout_effect {t t' : T} {flat : List (Id × Ind)} {news : List NewEnv
         · rename_i t1 hc
           have ce := createDeme_effect hc
           have ie := ih h
-          obtain ⟨old1, d1, hd1, hf1, hlev1, _, hact1, hhib1, hst1, hseed1, hpar1, _, invs1, hlog1, _, hbox1, _⟩ := ce.demes
+          obtain ⟨old1, d1, hd1, hf1, _, _, hlev1, _, hact1, hhib1, hst1, hseed1, hpar1, _, invs1, hlog1, _, hbox1, _⟩ := ce.demes
           obtain ⟨invs2, hlog2, hbox2⟩ := ie.log
           obtain ⟨old2, nd2, hd2, hf2, hnew2⟩ := ie.demes
           have hpm := find_some_mem (show t.demes.find? (·.id == pid) = some p' from hfind)
